@@ -232,9 +232,13 @@ theorem exec_gated (cfg : Cfg) (H : Hashes) (ops : List Op) (s : State) :
         unfold consultOut
         cases zr with
         | exc => simp [errorResult]
+        | excU => simp
+        | excB => simp
         | ret z =>
           cases yr with
           | exc => simp [errorResult]
+          | excU => simp
+          | excB => simp
           | ret y =>
             cases hp : p.enc
             · simp
